@@ -419,10 +419,7 @@ impl<'a> Label<'a> {
 
 impl<'a> Display for Label<'a> {
     fn fmt(&self, f: &mut std::fmt::Formatter<'_>) -> std::fmt::Result {
-        match std::str::from_utf8(&self.data) {
-            Ok(s) => f.write_str(s),
-            Err(_) => Err(std::fmt::Error),
-        }
+        f.write_str(&String::from_utf8_lossy(&self.data))
     }
 }
 
